@@ -52,7 +52,7 @@ def sim_configs(kind, tier):
                                             filter=flt, poisson_solver_type=solver))
         else:
             widths = (0, 1, 2, 3, 4, 5, 6)
-            filters = [None] + [(t, o) for t in ("multiplicative", "convolution") for o in (1, 2, 3, 4, 5)]
+            filters = [None] + [(t, o) for t in ("multiplicative", "convolution") for o in (1, 2, 3)]   # cost grows ~4x per order
             for forcing, fs, solver in itertools.product((False, True), (False, True),
                                                          ("greens_function_convolution", "fast_diagonalisation")):
                 for w in widths:
